@@ -1112,7 +1112,15 @@ const UNKNOWN_ALGS: [&[u8]; 18] = [
     b"MD",
     b"BLAKE2",
 ];
-const BAD_SIZES: [&[u8]; 12] = [
+const BAD_SIZES: [&[u8]; 18] = [
+    // what is left of a number when its digits are taken away, and signs in
+    // the wrong place (a hand-written digit fold accepts some of them)
+    b"+",
+    b"++5",
+    b"+-5",
+    b"5+",
+    b"+x",
+    b"\xef\xbc\x95",
     b"abc",
     b"-1",
     b"1.5",
